@@ -506,8 +506,12 @@ def key_and_what(frag, dev):
             if isinstance(v, float):
                 lits = [lt for n, lt in _float_constants(frag) if n is not None and n.value == v]
                 lit = lits[0] if lits else repr(abs(v))
-                if isinstance(v2, int) and not isinstance(v2, bool) and v2 == v:
-                    devname = "type-changed-to-integer"
+                try:
+                    as_written = Decimal(lit)
+                except Exception:  # noqa: BLE001
+                    as_written = None
+                if isinstance(v2, int) and not isinstance(v2, bool) and (v2 == v or (as_written is not None and Decimal(v2) == as_written)):
+                    devname = "type-changed-to-integer"     # the integer literal denotes exactly the number that was written
                 elif isinstance(v2, (int, float)) and not isinstance(v2, bool):
                     devname = "value-changed"
                 else:
@@ -749,7 +753,7 @@ def w_run(item, rec):
 # ------------------------------------------------------------------------------------------------
 
 MANTISSAS = ["1", "1.5", "2.25", "1.23456789", "9.99999999", "123456.7891", "0.1"]
-EXPONENTS = list(range(-12, 16))
+EXPONENTS = list(range(-12, 23))     # repr() switches to exponent form at 1e16: both sides of it
 NUM_TEMPLATES = [("dataset-operand", "DS_r <- DS_1 * {lit};"), ("scalar-statement", "sc_r := {lit};"),
                  ("calc-clause", "DS_r <- DS_1[calc Me_2 := Me_1 + {lit}];")]
 
